@@ -1,4 +1,4 @@
-From CRNG Require Import Base.ListX Base.Bytes Base.Decimal Lib.GoFloat Model.PickleVM Model.PickleIn Check.Common.
+From CRNG Require Import Base.ListX Base.Bytes Base.Decimal Lib.GoFloat Model.PickleVM Model.PickleIn Model.PyPickle Check.Common.
 Local Open Scope N_scope.
 
 Record c13_case := {
@@ -7,7 +7,8 @@ Record c13_case := {
   p_events : list ev;                             (* observed Dispatch / IncNumInvalid calls, in order *)
   p_err : bool;                                   (* Handle returned an error *)
   p_spec : option (list ev * bool);               (* from the Python-level data: expected events, connection must end with an error *)
-  p_prefix : list ev                              (* corrupted streams: events of the intact frames before the corruption *)
+  p_prefix : list ev;                             (* corrupted streams: events of the intact frames before the corruption *)
+  p_py : list (N * list pydp * bytes)             (* protocol, Python-level datapoints, what pickle.dumps made of them: validates Model/PyPickle.v *)
 }.
 
 Definition ev_eqb (a b : ev) : bool :=
@@ -31,7 +32,11 @@ Fixpoint is_prefix (a b : list ev) : bool :=
   | _ :: _, [] => false
   end.
 
+Definition pymodel_ok (c : c13_case) : bool :=
+  forallb (fun x => match x with (proto, ds, b) => beqb (py_dumps proto ds) b end) (p_py c).
+
 Definition c13_verdict (c : c13_case) : N :=
+  if negb (pymodel_ok c) then 7 else
   let spec_ok :=
     match p_spec c with
     | Some (evs, e) => list_eqb ev_eqb evs (p_events c) && Bool.eqb e (p_err c)
